@@ -208,7 +208,11 @@ class StoreRunner:
             if op == 'close':
                 self.ts = None
                 try:
-                    ts.close()
+                    # (EntryForms: a session made through the constructor is left the way a `with` block leaves it)
+                    if getattr(self, 'entry', 'factory') == 'constructor':
+                        ts.__exit__(None, None, None)
+                    else:
+                        ts.close()
                 finally:
                     self._after_close(ts)
                 return 'yes', '-', None, None
@@ -247,7 +251,8 @@ class StoreRunner:
                 ts.add(t)
                 return 'yes', '-', None, None
             if op == 'get':
-                return 'yes', ident(ts[arg], self.big), None, None
+                # (EntryForms: an index / identifier is a whole number - Python int, or numpy integer in the third form)
+                return 'yes', ident(ts[np.int64(arg) if getattr(self, 'entry', 'factory') == 'constructor_str' else arg], self.big), None, None
             if op == 'len':
                 return 'yes', len(ts), None, None
             if op == 'iter':
@@ -258,7 +263,7 @@ class StoreRunner:
                     c.pop(arg, None)
                 return 'yes', '-', None, None
             if op == 'getflight':
-                r = ts.get_flight(cid(arg))
+                r = ts.get_flight(np.int64(cid(arg)) if getattr(self, 'entry', 'factory') == 'constructor_str' else cid(arg))
                 return 'yes', ({'p': 'none', 'id': 0} if r is None else ident(r, self.big)), None, None
             raise MachineryError(f'unknown op {op}')
         except MachineryError:
